@@ -1,18 +1,20 @@
 #!/bin/bash
-# re-apply every seeded change to the CURRENT /repo tree, run the quick check of its property, undo; summary in seeded/SWEEP.txt
-# usage: tools/sweep_seeds.sh [ID-prefix]
+# re-apply every seeded change to a scratch worktree of the CURRENT /repo HEAD (so /repo itself stays untouched), run the quick
+# check of its property against that worktree, undo; summary in seeded/SWEEP.txt.   usage: tools/sweep_seeds.sh [ID-prefix]
 cd /verif
-OUT=seeded/SWEEP.txt; TMP=$(mktemp)
+WT=$(mktemp -d /tmp/sweepwt.XXXXXX); rmdir $WT
+git -C /repo worktree add -q --detach $WT HEAD || exit 9
+trap 'git -C /repo worktree remove --force $WT 2>/dev/null; git -C /repo worktree prune' EXIT
+OUT=seeded/SWEEP${1:+_$1}.txt; TMP=$(mktemp)
 echo "# sweep of seeded changes against /repo $(git -C /repo rev-parse --short HEAD), /verif $(git rev-parse --short HEAD), $(date -u +%F)" > $TMP
 for d in seeded/${1:-}*/; do
   name=$(basename $d); id=${name%%_*}
   [ -f $d/patch.diff ] || continue
-  if ! git -C /repo apply --check $PWD/$d/patch.diff 2>/dev/null; then echo "$name: patch no longer applies to the current tree (superseded by a fix: commit)" >> $TMP; continue; fi
-  git -C /repo apply $PWD/$d/patch.diff
-  out=$(./check $id --tier quick --no-evidence 2>&1); rc=$?
-  git -C /repo checkout -q -- .
+  git -C $WT checkout -q -- .
+  if ! git -C $WT apply --check $PWD/$d/patch.diff 2>/dev/null; then echo "$name: patch no longer applies to the current tree (the code it changes was repaired by a later fix: commit)" >> $TMP; continue; fi
+  git -C $WT apply $PWD/$d/patch.diff
+  out=$(VERIF_REPO=$WT PYTHONPATH=$WT ./check $id --tier quick --no-evidence 2>&1); rc=$?
   nv=$(echo "$out" | grep -c '^VIOLATION')
-  echo "$name: exit=$rc violations=$nv $( [ $rc = 1 ] && echo DETECTED || echo MISSED ) | $(echo "$out" | grep 'tier=' | cut -c1-160)" >> $TMP
+  echo "$name: exit=$rc violations=$nv $( [ $rc = 1 ] && echo DETECTED || echo MISSED ) | $(echo "$out" | grep 'tier=' | cut -c1-170)" >> $TMP
 done
-[ -z "$(git -C /repo status --short)" ] || echo "WARNING: /repo not clean after sweep" >> $TMP
-mv $TMP $OUT; cat $OUT
+mv $TMP $OUT; tail -n +1 $OUT | cut -c1-120
